@@ -163,6 +163,9 @@ func runC05(w *World) {
 	// writers move objects through the area
 	nw := 1 + w.knob("writers", 2)
 	per := []int{10, 20, 40}[w.knob("per", 3)]
+	if w.deep() && w.knob("deep", 3) == 0 {
+		per = 90
+	}
 	var writers []*Actor
 	for i := 0; i < nw; i++ {
 		i := i
